@@ -598,3 +598,25 @@ def s_set_grows(ex, args, kwargs, st, node):
 
 
 SYMBOLIC.update({"subset_of_list_in_set": s_subset_of_list_in_set, "set_grows": s_set_grows})
+
+
+# ---- pointwise image of a map under "text stays, anything else through a named function" (header rendering) --------------------
+def text_image_of(res, src, fname):
+    """res has exactly the keys of src, and res[k] is src[k] when that is a str, else <fname>(src[k])"""
+    return (isinstance(res, dict) and set(res) == set(src)
+            and all(res[k] == (v if isinstance(v, str) else UF_TABLE[fname](v)) for k, v in src.items()))
+
+
+def s_text_image_of(ex, args, kwargs, st, node):
+    from .sym import Any as AnyS
+    rv = ex.as_val(args[0], st, node)
+    s_ = ex.need(ex.as_val(args[1], st, node), "d", st, node)
+    nm = z3.simplify(ex.as_val(args[2], st, node).e).as_string()
+    f = z3.Function(nm, AnyS, AnyS)
+    k = z3.Const("k!ti", StrS)
+    r = rv.payload("d")
+    sv = z3.Select(s_, k)
+    return VBool(z3.And(rv.is_tag("d"), z3.ForAll([k], z3.Select(r, k) == z3.If(sv == ABSENT, ABSENT, z3.If(recog("s")(sv), sv, f(sv))))))
+
+
+SYMBOLIC.update({"text_image_of": s_text_image_of})
